@@ -43,6 +43,7 @@ type Engine struct {
 	Trace            bool
 	Thorough         bool
 	deadline         time.Time
+	OpaqueStrings    map[string]string // fn name -> placeholder returned when called with symbolic arguments
 	knownSeen        map[string]int
 	SessionPaths     int               // recycle solver/context after this many paths
 	Substitute       map[string]string // fn name -> replacement fn name (spec substitution, layering)
@@ -321,6 +322,9 @@ func callSSA(i *interpreter, caller *frame, callpos token.Pos, fn *ssa.Function,
 		if i.run != nil || i.lenient {
 			if sub := i.eng.substFns[fn]; sub != nil {
 				return callSSA(i, caller, callpos, sub, args, nil)
+			}
+			if ph, ok := i.eng.OpaqueStrings[name]; ok && anySym(args) {
+				return ph // formatting of a symbolic value for a message: placeholder text
 			}
 			if in := intrinsics[name]; in != nil {
 				if v := in(fr, args); v != (notHandled{}) {
